@@ -175,6 +175,14 @@ func (c *Chain) signClaims(tk Ticket, claims jwt.MapClaims) string {
 	case 9: // ES256 header with the EdDSA signature
 		hdr := b64([]byte(`{"alg":"ES256","typ":"JWT"}`))
 		return hdr + "." + parts[1] + "." + parts[2]
+	case 10: // expiry prolonged after signing: header and signature of the authentic ticket, payload with a later exp
+		claims2 := jwt.MapClaims{}
+		for k, v := range claims {
+			claims2[k] = v
+		}
+		claims2["exp"] = tk.Exp + 100000
+		pb, _ := json.Marshal(claims2)
+		return parts[0] + "." + b64(pb) + "." + parts[2]
 	}
 }
 
